@@ -50,7 +50,7 @@ func genC04(seed uint64, run int, tier string) Scenario {
 	sc.ReadDelayUS = int64(rd / time.Microsecond)
 	sc.ReadSize = pick(r, 1, 3, 64, 8192, 8192)
 	sc.SearchDepth = pick(r, 300, 1000)
-	sc.TimeoutOpsUS = 60_000_000
+	sc.TimeoutOpsUS = sc.ReadDelayUS * 20000
 	g := &sgen{r: r, nl: pick(r, "\r\n", "\r\n", "\n"), host: word(r, lower, 2, 6) + word(r, lower+digits+"-", 0, 4)}
 	sc.Dev.NL = g.nl
 	sc.Dev.Seed = r.Uint64()
